@@ -1,6 +1,7 @@
 """Canonical, address-free representation of anything a simulated call can return or raise."""
 import dataclasses
 import enum
+import sys
 import re
 from decimal import Decimal
 from xml.etree.ElementTree import QName
@@ -11,6 +12,20 @@ try:  # lxml trees are returned by TreeSerializer
     from lxml import etree as _letree
 except Exception:  # pragma: no cover
     _letree = None
+
+
+def _named(tp):
+    """Module and qualified name of a class; marked when the name leads to ANOTHER class object than the one at hand
+    (the twin `@dataclass(slots=True)` leaves behind, a redefinition): the instance prints like the real thing but is not."""
+    name = f"{tp.__module__}.{tp.__qualname__}"
+    if "<locals>" in tp.__qualname__:
+        return name
+    target = sys.modules.get(tp.__module__)
+    for part in tp.__qualname__.split("."):
+        target = getattr(target, part, None)
+        if target is None:
+            return name
+    return name if target is tp else f"<another class named {name}>"
 
 
 def canon(obj, _depth=0):
@@ -36,7 +51,7 @@ def canon(obj, _depth=0):
                 parts.append(f"{f.name}=<unset>")
                 continue
             parts.append(f"{f.name}={canon(v, _depth + 1)}")
-        return f"{tp.__module__}.{tp.__qualname__}({', '.join(parts)})"
+        return f"{_named(tp)}({', '.join(parts)})"
     if tp is list:
         return "[" + ", ".join(canon(v, _depth + 1) for v in obj) + "]"
     if tp is tuple:
